@@ -23,6 +23,7 @@ struct Case {
   int size = 100;           // 0..100 generation size hint (engines ramp it up)
   uint64_t index = 0;       // running case index (enumeration harnesses derive their stratum from it)
   bool counting = true;     // false while shrinking / replaying
+  bool replay = false;      // true only when a saved case is being re-executed (--replay)
   bool nontrivial = false;
   uint64_t subevals = 0;    // extra oracle evaluations performed inside this case
   std::vector<std::string> classes;
